@@ -75,9 +75,9 @@ class DBuilt:
         return self.base.conv
 
     def convention(self, ds=None):
-        c = self.base.conv_class(self.ds if ds is None else ds)
-        c.bind()
-        return c
+        """the convention instance for the dataset (instantiated directly: a dataset can be
+        bound only once, and several instances are needed over a run)"""
+        return self.base.conv_class(self.ds if ds is None else ds)
 
 
 # ---------------------------------------------------------------------------------------
@@ -416,3 +416,128 @@ def depth_positions(nd: int, kcanon: int) -> list:
         p.insert(pos, kcanon)
         out.append(p)
     return out
+
+
+# ---------------------------------------------------------------------------------------
+# whole-dataset recipes
+
+def expected_discovery(conv: str, base: G.Built, ds_order: list, metas: dict) -> list:
+    """ground truth of `depth_coordinates` from what the generator put into the dataset:
+    SHOC: the fixed names that exist, in the code's order; others: marked variables that are not
+    on a grid, in dataset order.  `metas`: name -> (dims, attrs)"""
+    if conv == 'shoc_standard':
+        return [n for n, _ in SHOC_STANDARD_NAMES if n in metas]
+    if conv == 'shoc_simple':
+        return [n for n, _ in SHOC_SIMPLE_NAMES if n in metas]
+    out = []
+    for n in ds_order:
+        dims, attrs = metas[n]
+        marked = (str(attrs.get('positive', '')).lower() in ('up', 'down') or attrs.get('axis') == 'Z'
+                  or attrs.get('cartesian_axis') == 'Z' or attrs.get('coordinate_type') == 'Z'
+                  or attrs.get('standard_name') == 'depth')
+        on_grid = any(set(gd) <= set(dims) for gd, _ in base.grids.values())
+        if marked and not on_grid:
+            out.append(n)
+    return out
+
+
+def group_vars(rng: random.Random, base: G.Built, spec: dict, ax: dict, kind, *, vbase: int,
+               positions='all', wet=None, spare=False, dtype='f8') -> list:
+    """Variables of one (depth axis, grid kind) group sharing one static floor `wet`:
+    with a time dimension one variable per position of the depth dimension (`positions='all'`,
+    the other dimensions in canonical or, for 'shuffled-all', random order) or one randomly
+    ordered variable (`positions='random'`); plus one variable without the time dimension."""
+    gs = int(np.prod(base.grids[kind][1])) * (SPARE[1] if spare else 1)
+    if wet is None:
+        wet = [rng.randint(0, ax['n']) for _ in range(gs)]
+    proto = {'kind': kind, 'axis': ax['dim'], 'spare': spare, 'wet': list(wet), 'dtype': dtype}
+    protos = []
+    for has_t in ([True, False] if spec.get('time') else [False]):
+        vr = dict(proto, time=has_t)
+        dims, _ = var_layout(base, spec, vr)
+        kc = dims.index(ax['dim'])
+        if positions == 'random' or not has_t and spec.get('time'):
+            o = list(range(len(dims)))
+            rng.shuffle(o)
+            perms = [o]
+        else:
+            perms = depth_positions(len(dims), kc)
+            if positions == 'shuffled-all':
+                shuffled = []
+                for p in perms:
+                    others = [x for x in p if x != kc]
+                    rng.shuffle(others)
+                    others.insert(p.index(kc), kc)
+                    shuffled.append(others)
+                perms = shuffled
+        for p in perms:
+            protos.append(dict(vr, order=p))
+    rng.shuffle(protos)
+    for k, vr in enumerate(protos):
+        vr['name'] = f"v{vbase + k}_{kind}"
+        vr['base'] = (vbase + k) * 1000
+    return protos
+
+
+def random_dataset(rng: random.Random, conv: str, *, ny=2, nx=3, n_axes=None, levels=(2, 3),
+                   positions='all', kinds_per_axis=2, time='yes', bounds='random', positive='random',
+                   as_='random', bounds_last=None, extra_vars=True, shared_dim=False) -> dict:
+    base_r = base_recipe(rng, conv, ny, nx)
+    base = G.build(base_r)
+    pool = name_pool(conv)
+    if n_axes is None:
+        n_axes = rng.choice([1, 2, 2, 3])
+    n_axes = min(n_axes, len(pool))
+    axes = random_axes(rng, conv, n_axes, list(levels), bounds=bounds, positive=positive, as_=as_)
+    if shared_dim and conv in ('cf1d', 'cf2d', 'ugrid') and axes:
+        # a second, co-oriented coordinate on the first axis
+        ax = axes[0]
+        c0 = ax['coords'][0]
+        ph = physical_depths(c0)
+        up = rng.random() < 0.5
+        c1 = {'name': 'aux_' + c0['name'], 'values': [(-v if up else v) for v in ph],
+              'positive': 'up' if up else 'down', 'as': rng.choice(['coord', 'var']), 'bounds': None}
+        ax['coords'].append(c1)
+    spec = {'time': time_spec(rng, conv) if time == 'yes' else None, 'axes': axes, 'vars': [],
+            'bounds_last': (rng.random() < 0.5) if bounds_last is None else bounds_last}
+    kinds = grid_kinds(base)
+    vb = 1
+    for ax in axes:
+        for kind in rng.sample(kinds, min(len(kinds), kinds_per_axis)):
+            vs = group_vars(rng, base, spec, ax, kind, vbase=vb, positions=positions)
+            spec['vars'] += vs
+            vb += len(vs) + 1
+    if extra_vars:
+        spec['vars'].append({'name': 'surf', 'kind': kinds[0], 'axis': None, 'time': True, 'base': 770000})
+        if axes and rng.random() < 0.5:
+            spec['vars'].append({'name': 'profile', 'kind': None, 'axis': axes[0]['dim'], 'time': True, 'base': 880000})
+        if rng.random() < 0.3:
+            spec['vars'].append({'name': 'scalar0', 'kind': None, 'axis': None, 'time': False, 'base': 990000})
+    rng.shuffle(spec['vars'])
+    return {'base': base_r, 'depth': spec}
+
+
+def metas_of(db: 'DBuilt') -> dict:
+    return {str(n): (tuple(str(d) for d in db.ds[n].dims), dict(db.ds[n].attrs)) for n in db.ds.variables}
+
+
+def discovery(db: 'DBuilt') -> list:
+    return expected_discovery(db.conv, db.base, [str(n) for n in db.ds.variables], metas_of(db))
+
+
+def meta_str(name: str, dims, attrs: dict) -> str:
+    def f(k):
+        v = attrs.get(k)
+        return '-' if v is None else str(v)
+    return ':'.join([name, '+'.join(dims) or '-', f('positive'), f('axis'), f('cartesian_axis'),
+                     f('coordinate_type'), f('standard_name')])
+
+
+def disc_line(db: 'DBuilt') -> str:
+    metas = '/'.join(meta_str(n, d, a) for n, (d, a) in metas_of(db).items()) or '-'
+    if db.conv == 'shoc_standard':
+        return 'disc named ' + ','.join(n for n, _ in SHOC_STANDARD_NAMES) + ' ' + metas
+    if db.conv == 'shoc_simple':
+        return 'disc named ' + ','.join(n for n, _ in SHOC_SIMPLE_NAMES) + ' ' + metas
+    grids = ','.join('+'.join(gd) for gd, _ in db.base.grids.values()) or '-'
+    return f'disc generic {grids} {metas}'
